@@ -136,6 +136,9 @@ OSendRet(o, b, ids, ok, t) ==
 
 (* retries exhausted: the error callback ran for the batch (C09 attempts clause) *)
 OGiveUp(o, b, ids) ==
+  IF ids = <<>>       \* the error callback ran without the events of the batch it is about: nobody can route or commit them
+    THEN [o EXCEPT !.viol = @ \cup {V("gave_up_without_events", 0, 0, b, "")}]
+  ELSE
   LET k == ids[1]
       a == IF k \in DOMAIN o.att[b] THEN o.att[b][k] ELSE [calls |-> 0, fails |-> 0, lastfail |-> 0]
       v1 == IF o.cfg.retry >= 0 /\ a.calls < o.cfg.retry + 1 THEN {V("gave_up_early", k, a.calls, b, "")} ELSE {}
@@ -229,7 +232,7 @@ KindsC05 == {"over_capacity", "double_owner", "inuse_over_capacity", "inuse_nega
              "waiters_not_zero_at_idle", "leaked"}
 KindsC08 == {"batch_too_big", "batch_commit_order", "commit_before_send_return", "batch_commit_twice",
              "resend_after_done", "added_not_committed_once", "batch_bytes_exceeded", "batch_stale", "parent_sent"}
-KindsC09 == {"payload_of_other_event", "pause_too_short", "gave_up_early", "gave_up_unlimited", "onerror_twice", "failed_twice", "fail_without_dq",
+KindsC09 == {"gave_up_without_events", "payload_of_other_event", "pause_too_short", "gave_up_early", "gave_up_unlimited", "onerror_twice", "failed_twice", "fail_without_dq",
              "commit_of_dead_queued", "exhausted_not_dq_only", "exhausted_not_main_once",
              "commit_before_send_return"}
 
